@@ -224,3 +224,12 @@ def norm_call(fi, name):
         if isinstance(n, ast.Call) and ast.unparse(n.func).endswith(name):
             return ast.unparse(n)
     return name
+
+
+_check_before_purity = check
+
+
+def check(ctx, run):  # noqa: F811
+    _check_before_purity(ctx, run)
+    from .c02 import no_memoised_state
+    no_memoised_state(ctx, run, "C13.R5", "a time grid remembered from another derivative / step size is reused")
